@@ -399,12 +399,21 @@ func (e *Exec) spawn(name string, daemon bool, f func()) *G {
 	return g
 }
 
+// trimStack keeps the function/file lines of a stack and removes everything that varies
+// between runs (goroutine numbers, argument values, pc offsets), so that the same failure
+// renders identically when replayed.
 func trimStack(s string) string {
 	lines := strings.Split(s, "\n")
 	var out []string
 	for _, l := range lines {
-		if strings.Contains(l, "verif/engine/sched") || strings.Contains(l, "runtime/panic.go") {
+		if strings.Contains(l, "verif/engine/sched") || strings.Contains(l, "runtime/panic.go") || strings.HasPrefix(l, "goroutine ") || strings.HasPrefix(l, "panic(") {
 			continue
+		}
+		if i := strings.LastIndex(l, "("); i > 0 && !strings.HasPrefix(l, "\t") {
+			l = l[:i] // drop argument values
+		}
+		if i := strings.Index(l, " +0x"); i > 0 {
+			l = l[:i]
 		}
 		out = append(out, l)
 		if len(out) > 40 {
@@ -538,4 +547,19 @@ func Run(opts Opts, prefix []int, sigs []uint32, body func()) *Exec {
 	}
 	cur = nil
 	return e
+}
+
+// LiveNamed counts goroutines whose name has the prefix and that have not exited.
+func LiveNamed(prefix string) int {
+	e := cur
+	if e == nil {
+		return 0
+	}
+	n := 0
+	for _, g := range e.gs {
+		if !g.done && strings.HasPrefix(g.Name, prefix) {
+			n++
+		}
+	}
+	return n
 }
